@@ -743,6 +743,12 @@ impl SrvState {
         if verdict != TokVerdict::MustAccept {
             allowed.push(203);
         }
+        if verdict == TokVerdict::MustReject {
+            // no token of its own: 203 (C15). The payload checks that need no stored state may
+            // come first (205/206/207), the seq/cas comparison with the stored item may not -
+            // its answer tells an unauthorised sender which seq the node holds.
+            allowed.retain(|c| *c != 301 && *c != 302);
+        }
         let must_accept = verdict == TokVerdict::MustAccept && !has_payload_defect && !unspecified;
         let must_reject = verdict == TokVerdict::MustReject || has_payload_defect;
         let seq_conflict = payload_defects.contains(&301) || payload_defects.contains(&302);
@@ -781,7 +787,7 @@ impl SrvState {
                     self.viol(out, "C04", &format!("{what}/unexpected-error"), format!("{what}: unexpected error {code:?}"), path);
                 }
             } else if !code.map(|c| allowed.contains(&c)).unwrap_or(false) {
-                let prop = if seq_conflict { "C04" } else { "C03" };
+                let prop = if verdict == TokVerdict::MustReject && matches!(code, Some(301) | Some(302)) { token_prop } else if seq_conflict { "C04" } else { "C03" };
                 self.viol(out, prop, &format!("{what}/wrong-error-code"), format!("{what}: rejected with {code:?}, applicable codes are {allowed:?}"), path);
             }
             // a rejected write must leave the stored contents unchanged
